@@ -192,6 +192,18 @@ def run(ctx):
             except ValueError: pass
             except Exception as e: viol(f'C08:reject:non-square:{nm}', f'{nm} raised {type(e).__name__} instead of ValueError for a non-square matrix', {'shape': [n, n + 1]}, repr(e))
             ctx.count(('reject', nm, n), True)
+    # single rows and columns, constant ones included (a constant real row broadcasts against its transpose into an all-close comparison)
+    for n in (2, 3, 4):
+        for shp in ((1, n), (n, 1)):
+            for vname, val in (('zeros', 0.0), ('ones', 1.0), ('constant 2.5', 2.5), ('random', None)):
+                R = qx.to_np(qx.rand_int(rng, shp[0], shp[1], -2, 2)) if val is None else quaternion.as_quat_array(np.concatenate([np.full(shp + (1,), val), np.zeros(shp + (3,))], axis=-1))
+                for nm, f in (('eigen', eig.quaternion_eigendecomposition), ('eigenvalues', eig.quaternion_eigenvalues), ('eigenvectors', eig.quaternion_eigenvectors), ('tridiagonalize', tri.tridiagonalize)):
+                    try:
+                        with quiet(): f(R)
+                        viol(f'C08:reject:non-square:{nm}', f'{nm} accepted a {shp[0]} x {shp[1]} matrix ({vname})', {'shape': list(shp), 'entries': vname})
+                    except ValueError: pass
+                    except Exception as e: viol(f'C08:reject:non-square:{nm}', f'{nm} raised {type(e).__name__} instead of ValueError for a {shp[0]} x {shp[1]} matrix ({vname})', {'shape': list(shp), 'entries': vname}, repr(e))
+                ctx.count(('reject-line', shp, vname), True)
     try:
         with quiet(): tri.tridiagonalize(qx.to_np([[Q(2)]]))
         viol('C08:reject:1x1:tridiagonalize', 'tridiagonalize accepted a 1 x 1 matrix (documented minimum is 2 x 2)', {'n': 1})
